@@ -27,9 +27,10 @@ Open Scope Z_scope.
 
    history_ok evs is a decidable condition on the initial events only:
      every timestamp is >= 0;
-     every event is of a type whose processing sets _resolve (Plugin, Unplug, Recompute by
-       computation on the regenerated _process_event; not the untyped base class Event);
      a session to be plugged in at `timestamp` leaves later: timestamp < ev.departure.
+   Events of any type are allowed, also the untyped base class Event (whose processing sets no
+   _resolve): since `self._resolve = True` stands in front of the scheduler call, a period that
+   is interrupted is always re-entered.
 
    For every such history, every max_recompute, every rest of the simulator (network, EVs,
    batteries, matrices ...) with arbitrary operations, every scheduler, every call index k:
@@ -87,14 +88,14 @@ Theorem C09_heap_queue_laws : queue_laws HeapEQ hq_inv.
 Proof. exact HeapEQ_laws. Qed.
 Print Assumptions C09_heap_queue_laws.
 
-(* history_ok is satisfiable, and it excludes the inputs of the two open findings *)
+(* history_ok is satisfiable, admits untyped events, and excludes the input of the open finding *)
 Example C09_history_ok_example : history_ok ex_events = true.
 Proof. exact history_ok_example. Qed.
 Example C09_history_rejects_zero_stay_example : history_ok [plug 1 0 0 1; plug 0 1 1 4] = false.
 Proof. exact history_ok_rejects_zero_stay. Qed.
-Example C09_history_rejects_untyped_example :
-  history_ok [plug 0 0 0 2; mk_event "Event" 4 (-1) (-1) (-1)] = false.
-Proof. exact history_ok_rejects_untyped. Qed.
+Example C09_history_accepts_untyped_example :
+  history_ok [plug 0 0 0 2; mk_event "Event" 4 (-1) (-1) (-1)] = true.
+Proof. exact history_ok_accepts_untyped. Qed.
 Example C09_heap_resume_example :
   drunE 10 None (init_simE ex_events (Some 2)) = Done (state_of exE_ref)
   /\ drunE 10 (Some 2%nat) (init_simE ex_events (Some 2)) = Raised (state_of exE_crash)
@@ -105,10 +106,8 @@ Proof. exact heap_resume_example. Qed.
 (* GENERAL FORM, for any queue implementation.
    FULL STATEMENT (refuted, see Props/C09_findings.v): the theorem below without `queue_ok s`.
    `inv` is the representation invariant of the queue implementation (the heap invariant for
-   EventQueue, `True` for the list queue).  queue_ok s says of every pending event e:  _iteration <= e.timestamp;  processing an event of
-   e's type sets _resolve (true for Plugin / Unplug / Recompute, computed from the regenerated
-   _process_event; false for the base class Event);  a session to be plugged in at e.timestamp
-   leaves later: e.timestamp < ev.departure.
+   EventQueue, `True` for the list queue).  queue_ok s says of every pending event e:  _iteration <= e.timestamp;  a session to be plugged
+   in at e.timestamp leaves later: e.timestamp < ev.departure.
 
    For every history s, every call index k, every amount of fuel: if run() with a scheduler that
    raises at its (k+1)-th call leaves the simulator in state sc, and the uninterrupted run() ends in
@@ -137,7 +136,7 @@ Theorem C09_loop_is_regenerated :
          (SS : string -> Z -> option Sched -> option Z -> St -> St) (sched : sim QI St -> Sched)
          (guard : bool -> bool -> bool) (fuel : nat) (k : option nat) (s : sim QI St),
     run_prog QI St Sched N SS sched guard fuel k s
-    = run_gen QI St Sched (R_of St Sched N SS) sched guard fuel k s.
+    = run_gen QI St Sched (R_of St Sched N SS) sched guard (pending_resolve QI St) fuel k s.
 Proof. exact run_prog_eq. Qed.
 Print Assumptions C09_loop_is_regenerated.
 
@@ -172,23 +171,28 @@ Theorem C09_interrupted_or_same :
          (fuel k : nat) (s : sim QI St),
     (exists sc, run QI St Sched R sched fuel (Some k) s = Raised sc)
     \/ run QI St Sched R sched fuel (Some k) s = run QI St Sched R sched fuel None s.
-Proof. exact (fun QI St Sched R sched => crash_or_same QI St Sched R sched Run_guard). Qed.
+Proof. exact (fun QI St Sched R sched => crash_or_same QI St Sched R sched Run_guard (pending_resolve QI St)). Qed.
 Print Assumptions C09_interrupted_or_same.
 
-(* the state left behind by the raising scheduler passes the loop test again, re-processes no
-   event, and is again well formed (the reason the resumed run continues identically) *)
+(* the state left behind by the raising scheduler (current events processed, `_resolve = True`
+   pending) passes the loop test again, re-processes no event, is due for a recomputation again,
+   is not changed by setting the pending resolve again, and is again well formed (the reason the
+   resumed run continues identically) *)
 Theorem C09_reentry :
   forall (QI : queue_impl) (inv : Qt QI -> Prop), queue_laws QI inv ->
   forall (St Sched : Type) (R : rest_ops St Sched) (s : sim QI St),
-    inv (s_queue s) /\ queue_ok QI St s -> Run_guard (s_resolve s) (q_empty QI (s_queue s)) = true ->
-    let s1 := pop_and_process QI St Sched R s in
-    Run_guard (s_resolve s1) (q_empty QI (s_queue s1)) = true
-    /\ pop_and_process QI St Sched R s1 = s1 /\ (inv (s_queue s1) /\ queue_ok QI St s1).
+    inv (s_queue s) /\ queue_ok QI St s ->
+    let sc := pending_resolve QI St (pop_and_process QI St Sched R s) in
+    Run_guard (s_resolve sc) (q_empty QI (s_queue sc)) = true
+    /\ pop_and_process QI St Sched R sc = sc
+    /\ recompute_due QI St sc = true
+    /\ pending_resolve QI St sc = sc
+    /\ (inv (s_queue sc) /\ queue_ok QI St sc).
 Proof. exact reentry. Qed.
 Print Assumptions C09_reentry.
 
-(* the hypothesis in terms of the input: any list of events with timestamps >= 0, of types whose
-   processing sets _resolve, whose sessions leave after the period they are plugged in *)
+(* the hypothesis in terms of the input (list queue): any list of events with timestamps >= 0
+   whose sessions leave after the period they are plugged in *)
 Theorem C09_initial_state_ok :
   forall (evs : list event) (mr : option Z),
     Forall (fun e => 0 <= e_ts e /\ ev_ok e) evs ->
@@ -208,6 +212,27 @@ Theorem C09_resume_old_guard_refuted :
     /\ d_log (s_rest sres) <> d_log (s_rest sref).
 Proof. exact old_guard_refuted. Qed.
 Print Assumptions C09_resume_old_guard_refuted.
+
+(* built-in regression for the fix "keep a resolve pending across the scheduler call": WITHOUT
+   `self._resolve = True` in front of `self.scheduler.run()` (run_nopre) a well-formed history with
+   an untyped base Event that drains the queue, max_recompute = 1, raise at the fifth call, ends
+   one iteration short (this was the open finding `untyped-event-drains-queue`) ... *)
+Theorem C09_resume_without_pending_resolve_refuted :
+  exists (k fuel : nat) (sc sref sres : dsim HeapQ),
+    queue_ok HeapQ dstate untyped_witness
+    /\ drun_nopre fuel None untyped_witness = Done sref
+    /\ drun_nopre fuel (Some k) untyped_witness = Raised sc
+    /\ drun_nopre fuel None sc = Done sres
+    /\ s_iter sref = 5 /\ s_iter sres = 4.
+Proof. exact no_pending_resolve_refuted. Qed.
+Print Assumptions C09_resume_without_pending_resolve_refuted.
+(* ... and with the statement the same history resumes to the reference run *)
+Example C09_untyped_witness_resumes_example :
+  drun 8 None untyped_witness = Done (state_of utn_ref)
+  /\ drun 8 (Some 4%nat) untyped_witness = Raised (state_of utn_crash)
+  /\ drun 8 None (state_of utn_crash) = Done (state_of utn_ref)
+  /\ s_iter (state_of utn_ref) = 5.
+Proof. exact untyped_witness_resumes. Qed.
 
 (* the hypotheses are satisfiable: a queue implementation satisfying the laws, a well-formed
    history with two sessions and a RecomputeEvent *)
